@@ -290,13 +290,16 @@ func (p *Process) getBackoff() time.Duration {
 }
 
 func (p *Process) getProcessEnvironment() []string {
-	env := []string{
-		"PC_PROC_NAME=" + p.procConf.Name,
-		EnvReplicaNum + "=" + strconv.Itoa(p.procConf.ReplicaNum),
-	}
+	env := []string{}
 	env = append(env, os.Environ()...)
 	env = append(env, p.globalEnv...)
 	env = append(env, p.procConf.Environment...)
+	// last, because the last duplicate of a key is the one the command sees: a process-compose
+	// started by process-compose inherits the outer PC_PROC_NAME / PC_REPLICA_NUM
+	env = append(env,
+		"PC_PROC_NAME="+p.procConf.Name,
+		EnvReplicaNum+"="+strconv.Itoa(p.procConf.ReplicaNum),
+	)
 	return env
 }
 
